@@ -87,7 +87,7 @@ def octal : Nat → Nat → Bytes → Nat × Bytes
   | k + 1, v, c :: cs => if isOct c then octal k (v * 8 + (c.toNat - 48)) cs else (v, c :: cs)
 
 /-- dash's `echo` (src/bltin/printf.c `conv_escape_str`): `\c` stops all output, `\0` + up to three
-    octal digits, `\1`…`\7` + up to two more, `\a \b \f \n \r \t \v \\`; any other backslash is
+    octal digits, `\1`…`\7` + up to two more, `\a \b \e \f \n \r \t \v \\`; any other backslash is
     literal.  Result: bytes printed, "stopped by `\c`". -/
 def echoEsc : Nat → Bytes → Bytes × Bool
   | 0, _ => ([], false)
@@ -99,6 +99,7 @@ def echoEsc : Nat → Bytes → Bytes × Bool
       if c == 92 then lit 92 cs
       else if c == 97 then lit 7 cs
       else if c == 98 then lit 8 cs
+      else if c == 101 then lit 27 cs
       else if c == 102 then lit 12 cs
       else if c == 110 then lit 10 cs
       else if c == 114 then lit 13 cs
@@ -458,7 +459,8 @@ inductive Op where
   deriving Repr, BEq, DecidableEq, Inhabited
 
 /-- a test body: operations in sequence, `raise` (ends the sequence), nested `with m.subshell():`
-    blocks; `guarded = true` wraps the block in `try … except Marker: pass` -/
+    blocks; `guarded = true` wraps the block in `try … except Marker: pass` (only the test's own
+    exception is caught) -/
 inductive Prog where
   | done
   | op (o : Op) (k : Prog)
@@ -574,7 +576,7 @@ def runProg (ash : Bool) (cols rows : Nat) : Prog → World → (List Obs × Out
         let ex := mkObs .exit .ok w
         match outB with
         | .raised t =>
-          if c then
+          if c && t == "user" then
             let ((obsK, outK), w) := runProg ash cols rows k w
             ((en :: obsB ++ ex :: obsK, outK), w)
           else ((en :: obsB ++ [ex], .raised t), w)
